@@ -479,6 +479,370 @@ Proof.
     + destruct (Hvs j ad kk Ha Hk) as (v' & A & B & C). exists v'. replace (s + S j)%nat with (S s + j)%nat by lia. auto.
 Qed.
 
+(* ---- the repaired emitter: a closure made in the code of a NAMED nested function f may capture f itself:
+        COPYGLOB; ID_FUNC_ADDR f — one new function object per such closure (the free variables of a function
+        are pairwise different) ------------------------------------------------------------------------- *)
+
+Lemma copyglob_self_run : forall ip stk h o fr k w,
+  code_at prog ip [ins0 BYTECODE_COPYGLOB; ins BYTECODE_ID_FUNC_ADDR (Z.of_nat k) w] ->
+  star (mkst ip stk h o fr)
+       (mkst (S (S ip)) (length h :: stk) (h ++ [HFun (r_gp fr) (faddr k)]) o fr).
+Proof.
+  intros ip stk h o fr k w Hc. apply code_at_cons in Hc. destruct Hc as [H0 Hc]. apply code_at_head in Hc.
+  eapply star_step; [eapply step_copyglob; exact H0|].
+  eapply star_step; [eapply step_id_func_addr; exact Hc|]. apply star_refl.
+Qed.
+
+Definition selfcap (ce : cenv) (l : list ident) : bool :=
+  existsb (fun y => match clookup y ce with Some _ => false | None => self_is (fc_self fc) y end) l.
+
+(* hl = the length of the heap when the captures of the closure start: the address of the copy *)
+Definition resolves_s (L : Z) (ce : cenv) (stk gl : list nat) (hl : nat) (y : ident) (a : nat) : Prop :=
+  match clookup y ce with
+  | Some i => i <= L /\ nth_error stk (Z.to_nat (L - i)) = Some a
+  | None => if self_is (fc_self fc) y then a = hl
+            else nth_error gl (Z.to_nat (gpos y (fc_fvs fc) 0)) = Some a
+  end.
+
+Lemma resolves_s_ns : forall L ce stk gl hl l addrs, selfcap ce l = false ->
+  Forall2 (resolves_s L ce stk gl hl) l addrs -> Forall2 (resolves fc L ce stk gl) l addrs.
+Proof.
+  intros L ce stk gl hl l addrs Hs HF. induction HF as [|y a l addrs Hy HF IH]; constructor.
+  - unfold selfcap in Hs. cbn [existsb] in Hs. apply orb_false_iff in Hs. destruct Hs as [Hs _].
+    unfold resolves_s in Hy. unfold resolves.
+    destruct (clookup y ce); [exact Hy|]. rewrite Hs in Hy. split; [exact Hs | exact Hy].
+  - apply IH. unfold selfcap in Hs. cbn [existsb] in Hs. apply orb_false_iff in Hs. exact (proj2 Hs).
+Qed.
+
+Lemma capture_app : forall ce l1 l2 L,
+  capture FT fc L ce (l1 ++ l2) = capture FT fc L ce l1 ++ capture FT fc (L + Z.of_nat (length l1)) ce l2.
+Proof.
+  intros ce l1 l2. induction l1 as [|y t IH]; intros L.
+  - simpl. rewrite Z.add_0_r. reflexivity.
+  - cbn [app capture]. rewrite IH, <- app_assoc. do 3 f_equal. cbn [length]. lia.
+Qed.
+
+Lemma selfcap_split : forall ce l, selfcap ce l = true -> NoDup l ->
+  exists l1 y l2, l = l1 ++ y :: l2 /\ clookup y ce = None /\ self_is (fc_self fc) y = true /\
+                  selfcap ce l1 = false /\ selfcap ce l2 = false.
+Proof.
+  intros ce l Hs Hnd. unfold selfcap in Hs. apply existsb_exists in Hs. destruct Hs as (y & Hin & Hy).
+  destruct (clookup y ce) eqn:Ecl; [discriminate|].
+  apply in_split in Hin. destruct Hin as (l1 & l2 & ->). exists l1, y, l2.
+  split; [reflexivity|]. split; [exact Ecl|]. split; [exact Hy|].
+  apply NoDup_remove_2 in Hnd.
+  assert (Hno : forall l0, (forall z, In z l0 -> In z (l1 ++ l2)) -> selfcap ce l0 = false).
+  { intros l0 Hsub. destruct (selfcap ce l0) eqn:E; [|reflexivity]. exfalso.
+    unfold selfcap in E. apply existsb_exists in E. destruct E as (z & Hz & Hz').
+    destruct (clookup z ce); [discriminate|]. unfold self_is in Hy, Hz'.
+    destruct (fc_self fc) as [f|]; [|discriminate]. apply N.eqb_eq in Hy, Hz'. subst.
+    apply Hnd. apply Hsub. exact Hz. }
+  split; apply Hno; intros z Hz; apply in_or_app; auto.
+Qed.
+
+Lemma capture_run_s : forall ce stk gl h o fr L l addrs ks,
+  NoDup l -> (forall y, self_is (fc_self fc) y = true -> clookup y ce = None -> fidx FT y = Z.of_nat ks) ->
+  gl = [] \/ nth_error h (r_gp fr) = Some (HVec gl) ->
+  Forall2 (resolves_s L ce stk gl (length h)) l addrs ->
+  forall pushed pc,
+  code_at prog pc (capture FT fc (L + Z.of_nat (length pushed)) ce l) ->
+  star (mkst pc (pushed ++ stk) h o fr)
+       (mkst (pc + length (capture FT fc (L + Z.of_nat (length pushed)) ce l)) (rev addrs ++ pushed ++ stk)
+             (h ++ if selfcap ce l then [HFun (r_gp fr) (faddr ks)] else []) o fr).
+Proof.
+  intros ce stk gl h o fr L l addrs ks Hnd Hks Hgp HF pushed pc Hc.
+  destruct (selfcap ce l) eqn:Hs.
+  2:{ pose proof (resolves_s_ns _ _ _ _ _ _ _ Hs HF) as HF'.
+      rewrite (capture_length FT fc ce stk gl L l addrs HF'), app_nil_r.
+      exact (capture_run X prog FT fc ce stk gl h o fr L l addrs Hgp HF' pushed pc Hc). }
+  destruct (selfcap_split ce l Hs Hnd) as (l1 & y & l2 & -> & Ecl & Ey & Hs1 & Hs2).
+  apply Forall2_app_inv_l in HF. destruct HF as (a1 & a2' & HF1 & HF2 & ->).
+  inversion HF2 as [|? a ? a2 Hy HF2']; subst. clear HF2.
+  unfold resolves_s in Hy. rewrite Ecl, Ey in Hy. subst a.
+  pose proof (resolves_s_ns _ _ _ _ _ _ _ Hs1 HF1) as HF1'.
+  pose proof (resolves_s_ns _ _ _ _ _ _ _ Hs2 HF2') as HF2''.
+  rewrite capture_app in Hc |- *. cbn [capture] in Hc |- *. rewrite Ecl, Ey, (Hks y Ey Ecl) in Hc |- *.
+  rewrite !app_length. cbn [length app] in Hc |- *.
+  rewrite (capture_length FT fc ce stk gl L l1 a1 HF1'), (capture_length FT fc ce stk gl L l2 a2 HF2'').
+  assert (Hc1 := code_at_app_l _ _ _ _ Hc). assert (Hc2 := code_at_app_r _ _ _ _ Hc).
+  rewrite (capture_length FT fc ce stk gl L l1 a1 HF1') in Hc2.
+  eapply star_trans; [exact (capture_run X prog FT fc ce stk gl h o fr L l1 a1 Hgp HF1' pushed pc Hc1)|].
+  eapply star_trans.
+  { apply (copyglob_self_run (pc + length l1) (rev a1 ++ pushed ++ stk) h o fr ks 0).
+    apply (code_at_app_l prog (pc + length l1)
+             [ins0 BYTECODE_COPYGLOB; ins BYTECODE_ID_FUNC_ADDR (Z.of_nat ks) 0]
+             (capture FT fc (L + Z.of_nat (length pushed) + Z.of_nat (length l1) + 1) ce l2)).
+    exact Hc2. }
+  assert (Hgp' : gl = [] \/ nth_error (h ++ [HFun (r_gp fr) (faddr ks)]) (r_gp fr) = Some (HVec gl)).
+  { destruct Hgp as [Hgp | Hgp]; [left; exact Hgp | right]. rewrite nth_error_app1; [exact Hgp|]. apply nth_error_Some. congruence. }
+  pose proof (capture_run X prog FT fc ce stk gl (h ++ [HFun (r_gp fr) (faddr ks)]) o fr L l2 a2 Hgp' HF2''
+                (length h :: rev a1 ++ pushed) (S (S (pc + length l1)))) as R.
+  assert (Hlen1 : length a1 = length l1) by (clear -HF1; induction HF1; simpl; congruence).
+  replace (L + Z.of_nat (length (length h :: rev a1 ++ pushed)))
+    with (L + Z.of_nat (length pushed) + Z.of_nat (length l1) + 1) in R
+    by (cbn [length]; rewrite app_length, rev_length, Hlen1; lia).
+  assert (Hc3 := code_at_app_r prog (pc + length l1)
+             [ins0 BYTECODE_COPYGLOB; ins BYTECODE_ID_FUNC_ADDR (Z.of_nat ks) 0] _ Hc2).
+  cbn [length] in Hc3. replace (pc + length l1 + 2)%nat with (S (S (pc + length l1))) in Hc3 by lia.
+  specialize (R Hc3).
+  replace (pc + (length l1 + (2 + length l2)))%nat with (S (S (pc + length l1)) + length l2)%nat by lia.
+  rewrite rev_app_distr. cbn [rev]. rewrite <- !app_assoc. cbn [app].
+  cbn [app] in R. rewrite <- app_assoc in R. exact R.
+Qed.
+
+Lemma closure_run_s : forall ce stk gl h o fr L g addrs pc k ks,
+  NoDup (fvs_fd TL g) -> (forall y, self_is (fc_self fc) y = true -> clookup y ce = None -> fidx FT y = Z.of_nat ks) ->
+  gl = [] \/ nth_error h (r_gp fr) = Some (HVec gl) ->
+  Forall2 (resolves_s L ce stk gl (length h)) (fvs_fd TL g) addrs ->
+  fidx FT (fd_name g) = Z.of_nat k ->
+  code_at prog pc (closure_code FT TL fc L ce g) ->
+  let cps := if selfcap ce (fvs_fd TL g) then [HFun (r_gp fr) (faddr ks)] else [] in
+  star (mkst pc stk h o fr)
+       (mkst (pc + length (closure_code FT TL fc L ce g)) (S (length h + length cps) :: stk)
+             (h ++ cps ++ [HVec addrs; HFun (length h + length cps) (faddr k)]) o fr).
+Proof.
+  intros ce stk gl h o fr L g addrs pc k ks Hnd Hks Hgp HF Hk Hc cps.
+  unfold closure_code in *. set (fv := fvs_fd TL g) in *.
+  set (cap := capture FT fc L ce fv) in *.
+  apply code_at_cons in Hc. destruct Hc as [H0 Hc]. apply code_at_cons in Hc. destruct Hc as [H1 Hc].
+  assert (Hc1 := code_at_app_l _ _ _ _ Hc). assert (Hc2 := code_at_app_r _ _ _ _ Hc).
+  apply code_at_cons in Hc2. destruct Hc2 as [H2 Hc2]. apply code_at_head in Hc2.
+  eapply star_step; [eapply step_nop; [exact H0 | tauto]|].
+  eapply star_step; [eapply step_nop; [exact H1 | tauto]|].
+  eapply star_trans.
+  { pose proof (capture_run_s ce stk gl h o fr L fv addrs ks Hnd Hks Hgp HF [] (S (S pc))) as R.
+    change (L + Z.of_nat (length (@nil nat))) with (L + 0) in R. rewrite Z.add_0_r in R. apply R. exact Hc1. }
+  fold cap. fold cps. cbn [app].
+  assert (Hlen : length addrs = length fv) by (clear -HF; induction HF; simpl; congruence).
+  eapply star_step.
+  { apply (step_global_vec X prog (S (S pc) + length cap) (rev addrs) stk (h ++ cps) o fr).
+    rewrite rev_length, Hlen. exact H2. }
+  rewrite rev_involutive.
+  eapply star_step.
+  { apply (step_id_func_addr X prog (S (S (S pc) + length cap)) (length (h ++ cps)) stk ((h ++ cps) ++ [HVec addrs]) o fr k 0).
+    rewrite <- Hk. exact Hc2. }
+  match goal with |- ValueVM4.star _ _ ?a ?b => assert (E : a = b); [|rewrite E; apply star_refl] end.
+  f_equal.
+  - cbn [length]. rewrite app_length. cbn [length]. lia.
+  - rewrite !app_length. cbn [length]. f_equal. lia.
+  - rewrite app_length, <- !app_assoc. reflexivity.
+Qed.
+
+(* a run of sibling functions whose closures may capture the running function: the heap grows by 2 or 3 cells
+   per closure; the addresses of the copies are the heap lengths at the start of each closure *)
+Definition grow (ce : cenv) (fd : fdef) : nat := if selfcap ce (fvs_fd TL fd) then 3%nat else 2%nat.
+
+Fixpoint rrP (P : nat -> ident -> nat -> Prop) (ce : cenv) (hl : nat) (rest : list fdef) (addrss : list (list nat)) : Prop :=
+  match rest, addrss with
+  | fd :: t, ad :: at_ => Forall2 (P hl) (fvs_fd TL fd) ad /\ rrP P ce (hl + grow ce fd) t at_
+  | [], [] => True
+  | _, _ => False
+  end.
+
+Definition rr (L : Z) (ce : cenv) (Sk gl : list nat) : nat -> list fdef -> list (list nat) -> Prop :=
+  rrP (resolves_s L ce Sk gl) ce.
+
+Lemma rrP_imp : forall (P Q : nat -> ident -> nat -> Prop) ce, (forall hl y a, P hl y a -> Q hl y a) ->
+  forall rest hl addrss, rrP P ce hl rest addrss -> rrP Q ce hl rest addrss.
+Proof.
+  intros P Q ce HPQ rest. induction rest as [|fd t IH]; intros hl addrss H; destruct addrss as [|ad at_]; simpl in *; auto.
+  destruct H as [H1 H2]. split; [|apply IH; exact H2].
+  clear -HPQ H1. induction H1; constructor; auto.
+Qed.
+
+(* the heap length at the start of closure j *)
+Fixpoint hl_at (ce : cenv) (hl : nat) (rest : list fdef) (j : nat) : nat :=
+  match j, rest with
+  | S j', fd :: t => hl_at ce (hl + grow ce fd) t j'
+  | _, _ => hl
+  end.
+
+Fixpoint filled_s (H : list hcell) (lim s hl : nat) (ce : cenv) (gp kself : nat) (rest : list fdef)
+  (addrss : list (list nat)) (ks : list nat) : Prop :=
+  match rest, addrss, ks with
+  | fd :: t, ad :: at_, k :: kt =>
+      (exists v, nth_error H s = Some (HFun v (faddr k)) /\ nth_error H v = Some (HVec ad) /\ (lim <= v)%nat) /\
+      (selfcap ce (fvs_fd TL fd) = true -> nth_error H hl = Some (HFun gp (faddr kself)) /\ (lim <= hl)%nat) /\
+      filled_s H lim (S s) (hl + grow ce fd) ce gp kself t at_ kt
+  | [], [], [] => True
+  | _, _, _ => False
+  end.
+
+Lemma run_code_run_s : forall ce gl o fr L Sk s0 k h0 kself,
+  (forall y, self_is (fc_self fc) y = true -> clookup y ce = None -> fidx FT y = Z.of_nat kself) ->
+  gl = [] \/ nth_error h0 (r_gp fr) = Some (HVec gl) -> s0 = length h0 ->
+  forall rest addrss ks s H pc,
+  (forall fd, In fd rest -> NoDup (fvs_fd TL fd)) ->
+  (s + length rest = s0 + k)%nat -> (s0 <= s)%nat -> (s0 + k <= length H)%nat ->
+  (forall a, (a < s0)%nat -> nth_error H a = nth_error h0 a) ->
+  (forall i, (i < k)%nat -> nth_error Sk i = Some (s0 + k - 1 - i)%nat) ->
+  rr L ce Sk gl (length H) rest addrss ->
+  Forall2 (fun fd kk => fidx FT (fd_name fd) = Z.of_nat kk) rest ks ->
+  code_at prog pc (run_code_f (closure_code FT TL fc L ce) rest (length rest)) ->
+  exists H',
+    star (mkst pc Sk H o fr)
+         (mkst (pc + length (run_code_f (closure_code FT TL fc L ce) rest (length rest))) Sk H' o fr) /\
+    (length H <= length H')%nat /\
+    (forall a, (a < s)%nat -> nth_error H' a = nth_error H a) /\
+    (forall a, (s0 + k <= a < length H)%nat -> nth_error H' a = nth_error H a) /\
+    filled_s H' (s0 + k) s (length H) ce (r_gp fr) kself rest addrss ks.
+Proof.
+  intros ce gl o fr L Sk s0 k h0 kself Hks Hgp Es0 rest.
+  induction rest as [|fd rest IH]; intros addrss ks s H pc Hnd Hs Hs0 Hlen Hpre HS HF HK Hc.
+  - destruct addrss; [|contradiction]. inversion HK; subst. exists H. simpl. rewrite Nat.add_0_r.
+    repeat split; auto. apply star_refl.
+  - destruct addrss as [|ad at_]; [contradiction|]. unfold rr in HF. cbn [rrP] in HF. destruct HF as [Had HFt].
+    fold (rr L ce Sk gl) in HFt.
+    inversion HK as [|? kk ? kt Hkk HKt]; subst.
+    cbn [run_code_f length] in *. replace (S (length rest) - 1)%nat with (length rest) in * by lia.
+    assert (Hc1 := code_at_app_l _ _ _ _ Hc). assert (Hc2 := code_at_app_r _ _ _ _ Hc).
+    apply code_at_cons in Hc2. destruct Hc2 as [Hrw Hc3].
+    assert (HgpH : gl = [] \/ nth_error H (r_gp fr) = Some (HVec gl)).
+    { destruct Hgp as [Hgp | Hgp]; [left; exact Hgp | right]. rewrite Hpre; [exact Hgp|]. apply nth_error_Some. congruence. }
+    assert (R1 := closure_run_s ce Sk gl H o fr L fd ad pc kk kself (Hnd fd (or_introl eq_refl)) Hks HgpH Had Hkk Hc1).
+    cbv zeta in R1.
+    set (cps := if selfcap ce (fvs_fd TL fd) then [HFun (r_gp fr) (faddr kself)] else []) in *.
+    set (n := length cps) in *.
+    assert (Hgrow : grow ce fd = (n + 2)%nat) by (unfold grow, n, cps; destruct (selfcap ce (fvs_fd TL fd)); reflexivity).
+    set (H1 := H ++ cps ++ [HVec ad; HFun (length H + n) (faddr kk)]) in *.
+    set (pc1 := (pc + length (closure_code FT TL fc L ce fd))%nat) in *.
+    assert (Htgt : nth_error (S (length H + n) :: Sk) (S (length rest)) = Some s).
+    { simpl. rewrite HS by lia. f_equal. lia. }
+    assert (Hlen1 : length H1 = (length H + n + 2)%nat) by (unfold H1; rewrite !app_length; fold n; simpl; lia).
+    assert (HH1 : nth_error H1 (S (length H + n)) = Some (HFun (length H + n) (faddr kk))).
+    { unfold H1. rewrite app_assoc, nth_error_app2 by (rewrite app_length; fold n; lia).
+      rewrite app_length. fold n. replace (S (length H + n) - (length H + n))%nat with 1%nat by lia. reflexivity. }
+    assert (HHv : nth_error H1 (length H + n) = Some (HVec ad)).
+    { unfold H1. rewrite app_assoc, nth_error_app2 by (rewrite app_length; fold n; lia).
+      rewrite app_length. fold n. rewrite Nat.sub_diag. reflexivity. }
+    assert (R2 := step_rewrite X prog pc1 (S (length H + n)) Sk H1 o fr (S (length rest)) (length H + n) (faddr kk) s
+                    Hrw HH1 Htgt ltac:(lia)).
+    set (H2 := list_upd H1 s (HFun (length H + n) (faddr kk))) in *.
+    assert (Hlen2 : length H2 = (length H + grow ce fd)%nat) by (unfold H2; rewrite list_upd_length, Hlen1, Hgrow; lia).
+    rewrite <- Hlen2 in HFt.
+    destruct (IH at_ kt (S s) H2 (S pc1)) as (H' & Hst & Hl' & Hlow & Hhigh & Hfill); auto; try lia.
+    { intros g Hg. apply Hnd. right. exact Hg. }
+    { intros a Ha. unfold H2. rewrite nth_error_list_upd_other by lia. unfold H1.
+      rewrite nth_error_app1 by lia. apply Hpre. exact Ha. }
+    exists H'. split; [|split; [|split; [|split]]].
+    + eapply star_trans; [exact R1|]. eapply star_step; [exact R2|].
+      replace (pc + length (closure_code FT TL fc L ce fd ++
+                 ins BYTECODE_REWRITE (Z.of_nat (S (length rest))) 0 ::
+                 run_code_f (closure_code FT TL fc L ce) rest (length rest)))%nat
+        with (S pc1 + length (run_code_f (closure_code FT TL fc L ce) rest (length rest)))%nat.
+      * exact Hst.
+      * rewrite app_length. cbn [length]. unfold pc1. lia.
+    + lia.
+    + intros a Ha. rewrite Hlow by lia. unfold H2. rewrite nth_error_list_upd_other by lia.
+      unfold H1. apply nth_error_app1. lia.
+    + intros a Ha. rewrite Hhigh by lia. unfold H2. rewrite nth_error_list_upd_other by lia.
+      unfold H1. apply nth_error_app1. lia.
+    + cbn [filled_s]. split; [|split].
+      * exists (length H + n)%nat. split; [|split; [|lia]].
+        -- rewrite Hlow by lia. unfold H2. apply nth_error_list_upd_same. lia.
+        -- rewrite Hhigh by lia. unfold H2. rewrite nth_error_list_upd_other by lia. exact HHv.
+      * intros Esc. split; [|lia]. rewrite Hhigh by (rewrite Hlen2, Hgrow; lia).
+        unfold H2. rewrite nth_error_list_upd_other by lia. unfold H1, cps. rewrite Esc.
+        rewrite nth_error_app2 by lia. rewrite Nat.sub_diag. reflexivity.
+      * rewrite Hlen2 in Hfill. exact Hfill.
+Qed.
+
+Theorem sibling_run_s : forall ce gl stk h o fr L fds addrss ks pc kself,
+  (forall y, self_is (fc_self fc) y = true -> clookup y ce = None -> fidx FT y = Z.of_nat kself) ->
+  (forall fd, In fd fds -> NoDup (fvs_fd TL fd)) ->
+  gl = [] \/ nth_error h (r_gp fr) = Some (HVec gl) ->
+  let k := length fds in
+  let Sk := rev (seq (length h) k) ++ stk in
+  rr L ce Sk gl (length h + k) fds addrss ->
+  Forall2 (fun fd kk => fidx FT (fd_name fd) = Z.of_nat kk) fds ks ->
+  code_at prog pc (ins BYTECODE_ALLOC (Z.of_nat k) 0 :: run_code_f (closure_code FT TL fc L ce) fds k) ->
+  exists H',
+    star (mkst pc stk h o fr)
+         (mkst (pc + S (length (run_code_f (closure_code FT TL fc L ce) fds k))) Sk H' o fr) /\
+    (forall a, (a < length h)%nat -> nth_error H' a = nth_error h a) /\
+    filled_s H' (length h + k) (length h) (length h + k) ce (r_gp fr) kself fds addrss ks.
+Proof.
+  intros ce gl stk h o fr L fds addrss ks pc kself Hks Hnd Hgp k Sk HF HK Hc.
+  apply code_at_cons in Hc. destruct Hc as [Ha Hc].
+  assert (R0 := step_alloc X prog pc stk h o fr k Ha). fold Sk in R0.
+  set (H0 := h ++ repeat (HFun 0 0) k) in *.
+  assert (HlenH0 : length H0 = (length h + k)%nat) by (unfold H0; rewrite app_length, repeat_length; reflexivity).
+  rewrite <- HlenH0 in HF.
+  destruct (run_code_run_s ce gl o fr L Sk (length h) k h kself Hks Hgp eq_refl fds addrss ks (length h) H0 (S pc))
+    as (H' & Hst & Hl & Hlow & Hhigh & Hfill); auto; try (unfold k; lia).
+  - intros a Ha'. unfold H0. apply nth_error_app1. exact Ha'.
+  - intros i Hi. unfold Sk. rewrite nth_error_app1 by (rewrite rev_length, seq_length; exact Hi).
+    rewrite nth_error_rev_seq by exact Hi. reflexivity.
+  - exists H'. split; [|split].
+    + eapply star_step; [exact R0|].
+      replace (pc + S (length (run_code_f (closure_code FT TL fc L ce) fds k)))%nat
+        with (S pc + length (run_code_f (closure_code FT TL fc L ce) fds (length fds)))%nat by (unfold k; lia).
+      exact Hst.
+    + intros a Ha'. rewrite Hlow by exact Ha'. unfold H0. apply nth_error_app1. exact Ha'.
+    + rewrite HlenH0 in Hfill. exact Hfill.
+Qed.
+
+(* the facts about function j of a filled run *)
+Lemma run_facts : forall (P : nat -> ident -> nat -> Prop) ce gp kself rest addrss ks H lim s hl,
+  rrP P ce hl rest addrss -> filled_s H lim s hl ce gp kself rest addrss ks ->
+  forall j fd, nth_error rest j = Some fd ->
+    exists ad kk v, nth_error addrss j = Some ad /\ nth_error ks j = Some kk /\
+      Forall2 (P (hl_at ce hl rest j)) (fvs_fd TL fd) ad /\
+      nth_error H (s + j) = Some (HFun v (faddr kk)) /\ nth_error H v = Some (HVec ad) /\ (lim <= v)%nat /\
+      (selfcap ce (fvs_fd TL fd) = true ->
+       nth_error H (hl_at ce hl rest j) = Some (HFun gp (faddr kself)) /\ (lim <= hl_at ce hl rest j)%nat).
+Proof.
+  intros P ce gp kself rest. induction rest as [|g t IH]; intros addrss ks H lim s hl Hr Hf j fd Hj.
+  - destruct j; discriminate Hj.
+  - destruct addrss as [|ad at_]; [contradiction|]. destruct ks as [|kk kt]; [contradiction|].
+    destruct Hr as [Had Hr]. cbn [filled_s] in Hf. destruct Hf as ((v & V1 & V2 & V3) & Hcp & Hf).
+    destruct j as [|j]; simpl in Hj.
+    + inversion Hj; subst g. exists ad, kk, v. cbn [hl_at]. rewrite Nat.add_0_r. repeat split; auto; apply Hcp; assumption.
+    + destruct (IH at_ kt H lim (S s) _ Hr Hf j fd Hj) as (ad' & kk' & v' & A & B & C & D & E & F & G).
+      exists ad', kk', v'. cbn [hl_at]. replace (s + S j)%nat with (S s + j)%nat by lia. repeat split; auto; apply G; assumption.
+Qed.
+
+Lemma filled_s_filled : forall rest H lim s hl ce gp kself addrss ks,
+  filled_s H lim s hl ce gp kself rest addrss ks -> filled H lim s addrss ks.
+Proof.
+  induction rest as [|fd t IH]; intros H lim s hl ce gp kself addrss ks Hf;
+    destruct addrss as [|ad at_]; destruct ks as [|k kt]; simpl in *; try contradiction; auto.
+  destruct Hf as (A & _ & B). split; [exact A | eapply IH; exact B].
+Qed.
+
+(* the copies of a run: (address, the cell cf of the running function's closure) *)
+Fixpoint cps_of (cf : nat) (ce : cenv) (hl : nat) (rest : list fdef) : list (nat * nat) :=
+  match rest with
+  | [] => []
+  | fd :: t => (if selfcap ce (fvs_fd TL fd) then [(hl, cf)] else []) ++ cps_of cf ce (hl + grow ce fd) t
+  end.
+
+Lemma cps_of_in : forall cf ce rest hl j fd, nth_error rest j = Some fd -> selfcap ce (fvs_fd TL fd) = true ->
+  In (hl_at ce hl rest j, cf) (cps_of cf ce hl rest).
+Proof.
+  intros cf ce rest. induction rest as [|g t IH]; intros hl j fd Hj Hs; [destruct j; discriminate|].
+  destruct j as [|j]; simpl in Hj.
+  - inversion Hj; subst g. cbn [cps_of hl_at]. rewrite Hs. left. reflexivity.
+  - cbn [cps_of hl_at]. apply in_or_app. right. eapply IH; eauto.
+Qed.
+
+Lemma cps_of_inv : forall cf ce rest hl a c, In (a, c) (cps_of cf ce hl rest) ->
+  c = cf /\ exists j fd, nth_error rest j = Some fd /\ selfcap ce (fvs_fd TL fd) = true /\ a = hl_at ce hl rest j.
+Proof.
+  intros cf ce rest. induction rest as [|g t IH]; intros hl a c Hin; [destruct Hin|].
+  cbn [cps_of] in Hin. apply in_app_or in Hin. destruct Hin as [Hin | Hin].
+  - destruct (selfcap ce (fvs_fd TL g)) eqn:Es; [|destruct Hin]. destruct Hin as [Hin | []]. inversion Hin; subst.
+    split; [reflexivity|]. exists 0%nat, g. auto.
+  - destruct (IH _ _ _ Hin) as (-> & j & fd & A & B & C). split; [reflexivity|]. exists (S j), fd. auto.
+Qed.
+
+Lemma cps_of_nil : forall cf ce rest hl, (forall fd, In fd rest -> selfcap ce (fvs_fd TL fd) = false) ->
+  cps_of cf ce hl rest = [].
+Proof.
+  intros cf ce rest. induction rest as [|g t IH]; intros hl H; [reflexivity|].
+  cbn [cps_of]. rewrite (H g (or_introl eq_refl)). simpl. apply IH. intros fd Hf. apply H. right. exact Hf.
+Qed.
+
 End Steps2.
 
 (* ---- recursion of a nested function, the three C08 facts ---------------------------------------- *)
